@@ -22,7 +22,20 @@ def opaque_classes():
     from jsonargparse import typing as jt
 
     return {"PositiveFloat": jt.PositiveFloat, "PositiveInt": jt.PositiveInt, "ClosedUnitInterval": jt.ClosedUnitInterval,
-            "NonNegativeInt": jt.NonNegativeInt, "Decimal": decimal.Decimal}
+            "NonNegativeInt": jt.NonNegativeInt, "Decimal": decimal.Decimal, "Email": jt.Email, "NotEmptyStr": jt.NotEmptyStr,
+            "StrColor": str_color()}
+
+
+_str_color = []
+
+
+def str_color():
+    if not _str_color:
+        class StrColor(str, enum.Enum):     # a str-mixin Enum: goes through the Enum branch, is a subclass of str
+            RED = "red"
+            GREEN = "green"
+        _str_color.append(StrColor)
+    return _str_color[0]
 
 
 def opaque_json(x):
@@ -35,6 +48,10 @@ def opaque_json(x):
             if isinstance(x, int):
                 return ["opaque", name, str(int(x))]
             if isinstance(x, decimal.Decimal):
+                return ["opaque", name, str(x)]
+            if isinstance(x, enum.Enum):
+                return ["opaque", name, x.name]
+            if isinstance(x, str):
                 return ["opaque", name, str(x)]
     return None
 
@@ -54,8 +71,8 @@ def install_recorder():
         before = to_json(val)
         try:
             res = orig(val, typehint, **kw)
-        except BaseException:   # noqa
-            REC.append([name, before, None])
+        except BaseException as e:   # noqa
+            REC.append([name, before, ["err", "value" if isinstance(e, ValueError) else "type"]])
             raise
         REC.append([name, before, to_json(res)])
         return res
@@ -152,7 +169,9 @@ def set_key(x):
         return (0, x, "")
     if type(x) is str:
         return (1, 0, x)
-    return (2, 0, "")
+    if type(x) is bool:
+        return (2, int(x), "")
+    return (3, 0, "")
 
 
 def to_json(x):
@@ -174,13 +193,13 @@ def to_json(x):
         return ["set", [to_json(y) for y in sorted(x, key=set_key)]]
     if type(x) is dict:
         return ["dict", [[to_json(a), to_json(b)] for a, b in x.items()]]
+    oj = opaque_json(x)
+    if oj is not None:
+        return oj
     if isinstance(x, enum.Enum):
         return ["enum", type(x).__name__, x.name]
     if isinstance(x, BaseException):
         return ["opaque", "exc", ""]
-    oj = opaque_json(x)
-    if oj is not None:
-        return oj
     return ["opaque", type(x).__name__, ""]
 
 
